@@ -21,4 +21,9 @@ def mergeAfterWait : List String :=
 the group through the remembering `checkRcptOnce`. -/
 def replayGroups : List String := ["newStates: CheckConnection", "newStates: CheckSender", "states: checkRcptOnce"]
 
+/-- The only writes to `MsgMetadata.Quarantine` in the pipeline package: the two `= true` of
+`applyResults` (`Model.applyResults`: `flag' = flag || …`; nothing else touches the flag, which
+is why "flagged by the outer pipeline before this pipeline's `applyResults` runs" is `Cfg.q0`). -/
+def flagWriteSites : List String := ["applyResults: cr.msgMeta.Quarantine", "applyResults: cr.msgMeta.Quarantine"]
+
 end MaddyVerif.Expect.C06Calls
